@@ -103,6 +103,21 @@ def body(c, alt):
         n = 1 if c["op"] in CMP else c["fw"]
         return ld("a", t, fbytes(c["ka"], c["fw"])) + ld("b", t, fbytes(c["kb"], c["fw"])) + \
             "r := a %s b; emit(^r, %d);" % (OPS[c["op"]], n)
+    if k == "bbin":
+        op = {"land": "&&", "lor": "||", "and": "&", "or": "|", "xor": "~", "eq": "==", "ne": "!="}[c["op"]]
+        return ld("a", "bool", c["a"]) + ld("b", "bool", c["b"]) + "r := a %s b; emit(^r, 1);" % op
+    if k == "bnot":
+        return ld("a", "bool", c["a"]) + "r := !a; emit(^r, 1);"
+    if k == "ccmp":
+        return ld("a", "char", c["a"]) + ld("b", "char", c["b"]) + "r := a %s b; emit(^r, 1);" % OPS[c["op"]]
+    if k == "b2i":
+        t2 = ity(c["w2"], c["s2"], alt)
+        return ld("a", "bool", c["a"]) + "r := %s.(a); emit(^r, %d);" % (t2, c["w2"])
+    if k == "c2i":
+        t2 = ity(c["w2"], c["s2"], alt)
+        return ld("a", "char", c["a"]) + "r := %s.(a); emit(^r, %d);" % (t2, c["w2"])
+    if k == "i2c":
+        return ld("a", "u8", c["a"]) + "r := char.(a); emit(^r, 1);"
     if k == "fneg":
         t = fty(c["fw"])
         return ld("a", t, fbytes(c["ka"], c["fw"])) + "r := -a; emit(^r, %d);" % c["fw"]
